@@ -77,7 +77,7 @@ func main() {
 		for _, k := range sortedKeys(stats) {
 			fmt.Fprintf(os.Stderr, "%s=%d\n", k, stats[k])
 		}
-	case "arith", "taintops", "filters", "resources", "awsops", "fleetops", "validate", "decode", "startup", "assemble":
+	case "arith", "taintops", "filters", "resources", "awsops", "fleetops", "validate", "decode", "startup", "assemble", "forever":
 		stats := map[string]int{}
 		r := newRng(*seed)
 		switch stream {
@@ -102,6 +102,8 @@ func main() {
 			runStartup(r, *n, *bin, w, stats)
 		case "assemble":
 			runAssemble(r, *n, *bin, w, stats)
+		case "forever":
+			runForever(w, stats)
 		}
 		for _, k := range sortedKeys(stats) {
 			fmt.Fprintf(os.Stderr, "%s=%d\n", k, stats[k])
